@@ -1,6 +1,8 @@
 // Deterministic simulation kernel (see kernel.h, DESIGN.md section 2).
 #include "kernel.h"
 #include <signal.h>
+#include <sys/time.h>
+#include <errno.h>
 
 #include <errno.h>
 #include <linux/futex.h>
@@ -48,6 +50,8 @@ struct Thread
     uint64_t last_ran = 0; // step at which it was last chosen
     bool spurious = false;
     bool in_prewait = false;
+    bool timed = false;    // cond wait with a deadline (Thread::deadline)
+    bool timedout = false; // ... which has expired
     uint64_t start_delay = 0;
 };
 
@@ -591,9 +595,14 @@ record(int kind, int64_t a)
 static void
 wake_sleepers()
 {
-    for (Thread* t : K.threads)
+    for (Thread* t : K.threads) {
         if (t->state == T_SLEEPING && t->deadline <= K.now)
             t->state = T_RUNNABLE;
+        if (t->state == T_BLK_COND && t->timed && t->deadline <= K.now) {
+            t->state = T_RUNNABLE;
+            t->timedout = true;
+        }
+    }
 }
 
 static uint64_t
@@ -691,6 +700,16 @@ reschedule(bool exiting)
                     record(EV_STALL, e.a);
                     probe("k.stalls");
                 }
+            } else if (e.kind == EV_TIMEOUT) {
+                if (e.a >= 0 && e.a < (int64_t)K.threads.size() &&
+                    K.threads[e.a]->state == T_BLK_COND &&
+                    K.threads[e.a]->timed) {
+                    if (K.threads[e.a]->deadline > K.now)
+                        K.now = K.threads[e.a]->deadline;
+                    wake_sleepers();
+                    record(EV_TIMEOUT, e.a);
+                    probe("k.early_timeouts");
+                }
             } else if (e.kind == EV_SWITCH) {
                 if (e.a >= 0 && e.a < (int64_t)K.threads.size()) {
                     forced = K.threads[e.a];
@@ -711,6 +730,23 @@ reschedule(bool exiting)
                         t->spurious = true;
                         record(EV_SPURIOUS, t->id);
                         probe("k.spurious_wakeups");
+                        break;
+                    }
+            }
+        }
+        if (K.cfg.p_timeout > 0) {
+            int nt = 0;
+            for (Thread* t : K.threads)
+                nt += (t->state == T_BLK_COND && t->timed);
+            if (nt && K.rng.chance(K.cfg.p_timeout)) {
+                int k = (int)K.rng.below((uint64_t)nt);
+                for (Thread* t : K.threads)
+                    if (t->state == T_BLK_COND && t->timed && k-- == 0) {
+                        if (t->deadline > K.now)
+                            K.now = t->deadline;
+                        wake_sleepers();
+                        record(EV_TIMEOUT, t->id);
+                        probe("k.early_timeouts");
                         break;
                     }
             }
@@ -752,7 +788,9 @@ reschedule(bool exiting)
         // nothing runnable: jump the clock to the earliest deadline
         uint64_t best = UINT64_MAX;
         for (Thread* t : K.threads)
-            if (t->state == T_SLEEPING && t->deadline < best)
+            if ((t->state == T_SLEEPING ||
+                 (t->state == T_BLK_COND && t->timed)) &&
+                t->deadline < best)
                 best = t->deadline;
         if (best != UINT64_MAX) {
             if (best > K.now)
@@ -1293,6 +1331,91 @@ extern "C"
         K.now += 1; // strictly increasing timestamps
         ts->tv_sec = (time_t)(K.now / 1000000000ull);
         ts->tv_nsec = (long)(K.now % 1000000000ull);
+        return 0;
+    }
+
+    int sim_pthread_cond_timedwait(pthread_cond_t* c, pthread_mutex_t* m,
+                                   const struct timespec* abst)
+    {
+        Thread* me = tl_self;
+        if (!K.active || !me)
+            return 0;
+        uint64_t dl = (uint64_t)abst->tv_sec * 1000000000ull +
+                      (uint64_t)abst->tv_nsec;
+        me->in_prewait = true;
+        reschedule(false);
+        me->in_prewait = false;
+        me->state = T_BLK_COND;
+        me->wait_obj = c;
+        me->spurious = false;
+        me->timed = true;
+        me->timedout = false;
+        me->deadline = dl;
+        release_mutex(m);
+        probe("k.cond_timedwaits");
+        reschedule(false);
+        bool expired = me->timedout;
+        me->timed = false;
+        me->timedout = false;
+        const uint64_t waiting_since = me->last_ran;
+        while (mutex_owner(m) != 0) {
+            me->state = T_BLK_MUTEX;
+            me->wait_obj = m;
+            reschedule(false);
+            if (mutex_owner(m) != 0)
+                me->last_ran = waiting_since;
+        }
+        mutex_owner(m) = me->id + 1;
+        return expired ? ETIMEDOUT : 0;
+    }
+
+    int sim_usleep(unsigned usec)
+    {
+        if (K.active && tl_self)
+            sleep_ns((uint64_t)usec * 1000ull);
+        return 0;
+    }
+
+    unsigned sim_sleep(unsigned sec)
+    {
+        if (K.active && tl_self)
+            sleep_ns((uint64_t)sec * 1000000000ull);
+        return 0;
+    }
+
+    int sim_gettimeofday(struct timeval* tv, void*)
+    {
+        struct timespec ts;
+        sim_clock_gettime(0, &ts);
+        if (tv) {
+            tv->tv_sec = ts.tv_sec;
+            tv->tv_usec = ts.tv_nsec / 1000;
+        }
+        return 0;
+    }
+
+    time_t sim_time(time_t* out)
+    {
+        struct timespec ts;
+        sim_clock_gettime(0, &ts);
+        if (out)
+            *out = ts.tv_sec;
+        return ts.tv_sec;
+    }
+
+    int sim_nanosleep(const struct timespec* req, struct timespec* rem);
+    int sim_clock_nanosleep(clockid_t, int flags, const struct timespec* req,
+                            struct timespec* rem)
+    {
+        if (flags == 0)
+            return sim_nanosleep(req, rem);
+        // TIMER_ABSTIME
+        if (K.active && tl_self) {
+            uint64_t dl = (uint64_t)req->tv_sec * 1000000000ull +
+                          (uint64_t)req->tv_nsec;
+            if (dl > K.now)
+                sleep_ns(dl - K.now);
+        }
         return 0;
     }
 
